@@ -243,8 +243,8 @@ type account struct {
 
 type histStats struct {
 	okChanges, failedChanges, accountsAtOkChange int
-	formatsAtOkChange                             map[int32]bool // address formats present at a successful change
-	legacyBeforeChange, coldChange               bool // cold = change attempted with no password held in memory (after restart)
+	formatsAtOkChange                            map[int32]bool // address formats present at a successful change
+	legacyBeforeChange, coldChange               bool           // cold = change attempted with no password held in memory (after restart)
 }
 
 func runHistory(t lib.TB, c hcase) (st histStats) {
